@@ -170,7 +170,16 @@ func (p MkLineParser) fixSpaceAfterVarname(line *Line, a *mkLineAssign) {
 	default:
 		parts := NewVaralignSplitter().split(line.RawText(0), true)
 		before := parts.leadingComment + parts.varnameOp + parts.spaceBeforeValue
-		after := alignWith(parts.leadingComment+varname+op.String(), before)
+
+		// Only remove the space between the variable name and the
+		// operator. Take the variable name from the raw text, as it
+		// may contain an escaped '#' that must stay escaped.
+		opText := op.String()
+		if !hasSuffix(parts.varnameOp, opText) {
+			return
+		}
+		rawVarname := rtrimHspace(parts.varnameOp[:len(parts.varnameOp)-len(opText)])
+		after := alignWith(parts.leadingComment+rawVarname+opText, before)
 
 		fix := line.Autofix()
 		fix.Notef("Unnecessary space after variable name %q.", varname)
